@@ -833,6 +833,14 @@ impl Sim {
             if to > dc {
                 return;
             }
+            // MemStorage::compact: "the application's responsibility to not attempt to compact an index
+            // greater than RaftLog.applied" - the library's applied index, which lags the application's
+            // own until advance_apply / advance_apply_to
+            if let Some(d) = n.driver.as_ref() {
+                if to > d.node.raft.raft_log.applied {
+                    return;
+                }
+            }
             let durable_too = to <= n.durable.last_index().unwrap() && to > n.durable.first_index().unwrap();
             self.store_op(i, StoreOp::Compact(to), durable_too);
             self.note(|| format!("{} compact store to {}", id, to));
